@@ -88,6 +88,33 @@ def model_check(module: str, cfg_text: str, name: str, workers: int = 16, timeou
     return res
 
 
+def model_check_start(module: str, cfg_text: str, name: str, workers: int = 6, heap="12g", extra=()):
+    """Start TLC without blocking (no Python thread: the parent must stay fork()-safe)."""
+    wd = workdir("mc_" + name)
+    cfg = wd / f"{name}.cfg"
+    cfg.write_text(cfg_text)
+    args = ["-workers", str(workers), "-metadir", str(wd / "meta"), "-noGenerateSpecTE",
+            "-config", str(cfg)] + list(extra) + [str(SPEC / f"{module}.tla")]
+    cmd = ["java", "-XX:+UseParallelGC", f"-Xmx{heap}", "-cp", JAR, "tlc2.TLC"] + args
+    outf = open(wd / "out.txt", "w")
+    p = subprocess.Popen(cmd, cwd=str(SPEC), stdout=outf, stderr=subprocess.STDOUT)
+    return {"proc": p, "wd": wd, "outf": outf, "t0": time.time(), "name": name, "module": module}
+
+
+def model_check_finish(h, timeout=3600) -> dict:
+    try:
+        rc = h["proc"].wait(timeout=timeout)
+    except subprocess.TimeoutExpired as ex:
+        h["proc"].kill()
+        raise TLCError(f"TLC timeout after {timeout}s: {h['name']}") from ex
+    h["outf"].close()
+    out = (h["wd"] / "out.txt").read_text()
+    res = parse_summary(out)
+    res.update(wall=time.time() - h["t0"], rc=rc, name=h["name"], module=h["module"], out_path=str(h["wd"] / "out.txt"))
+    shutil.rmtree(h["wd"] / "meta", ignore_errors=True)
+    return res
+
+
 def require_ok(res: dict):
     if res.get("error") or (not res["completed"] and res["violated"] is None):
         raise TLCError(f"TLC failed on {res['name']}: {res.get('error')}")
@@ -96,9 +123,18 @@ def require_ok(res: dict):
 _RE_PRINT = re.compile(r'<<"(ACCEPT|EXPECT|REJECT)", *(-?\d+)(?:, *(.*))?>>\s*$')
 
 
+def _clean(x):
+    """TLC's Json module rejects null: drop None-valued fields, map other None to a string."""
+    if isinstance(x, dict):
+        return {k: _clean(v) for k, v in x.items() if v is not None}
+    if isinstance(x, (list, tuple)):
+        return [("None" if v is None else _clean(v)) for v in x]
+    return x
+
+
 def _validate_shard(trace_module, cfg_text, wd: Path, idx: int, traces, timeout, env_extra):
     tf = wd / f"shard{idx}.json"
-    tf.write_text(json.dumps(traces))
+    tf.write_text(json.dumps(_clean(traces), default=str))
     cfg = wd / f"shard{idx}.cfg"
     cfg.write_text(cfg_text)
     args = ["-workers", "1", "-metadir", str(wd / f"meta{idx}"), "-noGenerateSpecTE",
@@ -140,7 +176,7 @@ def validate(trace_module: str, traces: list, name: str, cfg_text: str = None, s
         return set(), {}, {"generated": 0, "distinct": 0, "wall": 0.0}
     # JVM warm-up dominates short runs (measured: 1 JVM validates 39k traces in 7.5 s, 16 concurrent
     # JVMs need 20 s for the same work), so shards are large and few
-    shards = max(1, min(shards, 8, n // 20000 + 1))
+    shards = max(1, min(shards, 8, n // 10000 + 1))
     size = (n + shards - 1) // shards
     jobs = []
     for s in range(shards):
